@@ -2,7 +2,7 @@
    of the three hoisting passes (ms_fai, ms_fci, ms_ite) satisfy the leaf specification sspec. *)
 From Coq Require Import List ZArith NArith String Ascii Bool Arith Lia Permutation.
 Import ListNotations.
-From Dagrt Require Import Lang LangProofs Sched Transform TransformSem TransformBasics TransformHoist
+From Dagrt Require Import Lang LangProofs Sched Transform TransformSem TransformSide TransformBasics TransformHoist
      TransformSpec TransformMappers TransformLeaf.
 
 Section Stmt.
